@@ -203,6 +203,7 @@ def small_molecules(max_heavy=4, elements=('C', 'O')):
 CURATED_GAS = ['c1ccccc1', 'Cc1ccccc1', 'C1CCCCC1', 'C1=CCCCC1', 'CC(=O)O', 'CC(=O)OC', 'C=CC=C', 'CC(C)(C)C', 'C/C=C\\C', 'C/C=C/C', 'C/C=C\\CCCCCCC',
                'OCC(O)CO', 'C1CC1C', 'C#CC', 'CC(C)O', 'O=CC=O', '[CH3]', '[CH2]C', 'C[CH]C', 'C[O]', 'c1ccccc1O', 'C1CCC1', 'CC=CC(C)C', 'CCCCCCCC',
                'Cc1cccc2ccccc12', 'c1ccc2ccccc2c1', 'C1CC2CCC1C2', 'CCOCC', 'COC=O',
+               'CC(C)(C)/C=C(/C)CC', 'CC(C)(C)/C=C(\\C)CC', 'CC(C)(C)/C=C\\C', 'CC(C)(C)/C(C)=C(/C)CC',      # tert-butyl next to a tri- / tetra-substituted stereo double bond (one-direction patterns)
                'C1CCCCCC1c1ccccc1', 'c1ccccc1C1CCCCCC1', 'c1ccccc1C1CCCCCCC1',       # a larger ring before / after a benzene ring
                '[H][H]', '[H]', 'O', '[OH]', 'CC.[H][H]',       # hydrogen as a group centre (H2, the H radical)
                # molecules in which several scheme entries carrying the SAME correction name match (gauche / cis counts add up)
